@@ -428,7 +428,7 @@ struct Out1 {
 fn exercise(name: &str, spec: &ProgSpec, rng: &mut Rng, n_tuples: usize, history: &[String]) -> Out1 {
     let mut out = Out1 { evaluations: 0, children: 0, distinct: vec![], counters: vec![], violations: vec![], sample: None };
     let source = match spec.source() { Some(s) => s, None => return out };
-    if work::builds(spec) && work::qualify(spec, 150_000).is_none() {
+    if work::builds(spec) && work::qualify_scaled(name, spec, 150_000).is_none() {
         out.counters.push(("programs_skipped_step_budget", 1));
         return out;
     }
@@ -567,6 +567,9 @@ pub fn run(seed: u64, tier: &str, ev: &mut Evidence) -> Vec<Violation> {
         let mut rng = Rng::for_case(seed, "C11", "random-graph", j as u64);
         specs.push((format!("graph:{}", j), ProgSpec::Source(super::c10::random_graph_program(&mut rng))));
     }
+    for (name, src) in work::scale_templates() {
+        specs.push((format!("scale:{}", name), ProgSpec::Source(src)));
+    }
     // W1e: programs at the limits of the format's index widths and of the compiler's own checks —
     // where debug-only assertions, overflow checks and `as` casts could make the profiles disagree.
     for (name, src) in limit_templates() {
@@ -581,7 +584,9 @@ pub fn run(seed: u64, tier: &str, ev: &mut Evidence) -> Vec<Violation> {
             if j != i { if let Some(s) = specs[j].1.source() { if s.len() < 20_000 { history.push(s); } } }
         }
         super::util::breadcrumb("C11", json!({"kind": "program", "program": specs[i].1.to_json()}));
-        exercise(&specs[i].0, &specs[i].1, &mut rng, n_tuples, &history)
+        // scale templates cost seconds per observation in the debug build: fewer tuples, same coverage of the two forced ones
+        let nt = if specs[i].0.starts_with("scale:") { 4 } else { n_tuples };
+        exercise(&specs[i].0, &specs[i].1, &mut rng, nt, &history)
     });
     let mut raw = Vec::new();
     let mut children = 0u64;
